@@ -19,16 +19,19 @@ def spread(seq, k):
 
 
 def dim_arrays(shape, vals, limit):
+    """`limit` arrays of the given shape over `vals`, evenly spaced in the lexicographic enumeration of all of them
+    (the i-th one is decoded directly from its index: the full product is never iterated)."""
     size = int(np.prod(shape))
-    combos = itertools.product(vals, repeat=size)
-    out = []
     total = len(vals) ** size
     step = max(1, total // limit)
-    for i, c in enumerate(combos):
-        if i % step == 0:
-            out.append(np.array(c, dtype=np.int64).reshape(shape))
-        if len(out) >= limit:
-            break
+    out = []
+    for k in range(min(limit, total)):
+        i = k * step
+        digits = []
+        for _ in range(size):
+            i, r = divmod(i, len(vals))
+            digits.append(vals[r])
+        out.append(np.array(digits[::-1], dtype=np.int64).reshape(shape))
     return out
 
 
